@@ -381,6 +381,18 @@ func confs(thorough bool) (cs []conf) {
 		}
 	}
 
+	// Limits near 2^31, 2^32, 2^63 and the maximum: effectively unlimited, and
+	// must behave so (with a small element limit, and without).
+	for _, big := range []uint{1 << 31, 1 << 32, 1 << 63, ^uint(0)} {
+		for _, me := range []uint{0, 2, big} {
+			for _, lru := range []bool{false, true} {
+				cs = append(cs, conf{MaxSize: big, MaxElementSize: me, LRU: lru, OnDelete: 1})
+				cs = append(cs, conf{MaxCount: big, MaxElementSize: me, LRU: lru, OnDelete: 1})
+				cs = append(cs, conf{MaxSize: big, MaxCount: 2, MaxElementSize: me, LRU: lru, OnDelete: 1})
+			}
+		}
+	}
+
 	return cs
 }
 
@@ -468,7 +480,13 @@ func main() {
 			}
 			rec()
 
-			// (ii) BFS with replay over reference-model states, to a fixpoint.
+			// (ii) BFS with replay over reference-model states, to a fixpoint
+			// (the huge-limit configurations behave as the unlimited ones, whose
+			// graph is searched already; they get the sequences only).
+			if cf.MaxSize >= 1<<31 || cf.MaxCount >= 1<<31 || cf.MaxElementSize >= 1<<31 {
+				continue
+			}
+
 			seen := map[string]bool{}
 			first := runHistory(cf, nil)
 			seen[first.finalKey] = true
@@ -512,8 +530,56 @@ func main() {
 		// original entry is evicted in order; MaxCount / MaxSize around n.
 		n := int64(0)
 		maxN := runlib.Pick(c, 14, 24)
+		sizes := []int{}
 		for size := 1; size <= maxN; size++ {
-			for touch := -1; touch < size; touch++ {
+			sizes = append(sizes, size)
+		}
+
+		// Around the powers of two that fixed-size shortcuts use.
+		sizes = append(sizes, 31, 32, 33, 63, 64, 65, 66, 127, 128, 129)
+		if !c.Quick() {
+			sizes = append(sizes, 255, 256, 257, 1023, 1024, 1025)
+		}
+
+		for _, size := range sizes {
+			touches := []int{-1, 0, size / 2, size - 1}
+			if size <= maxN {
+				touches = touches[:0]
+				for t := -1; t < size; t++ {
+					touches = append(touches, t)
+				}
+			}
+
+			// A Clear of the populated cache, then a refill up to eviction: a
+			// cleared cache behaves like a new one.
+			for _, lim := range []int{size, size + 1} {
+				n++
+				if !c.Mine(n) {
+					continue
+				}
+
+				cf := conf{LRU: true, OnDelete: 1, MaxCount: uint(lim)}
+				var ops []op
+				for i := 0; i < size; i++ {
+					ops = append(ops, op{Kind: "set", Key: fmt.Sprintf("k%04d", i), Val: "v"})
+				}
+
+				ops = append(ops, op{Kind: "clear"}, op{Kind: "stats"})
+				for i := 0; i < lim+2; i++ {
+					ops = append(ops, op{Kind: "set", Key: fmt.Sprintf("n%04d", i), Val: "v"})
+				}
+
+				ops = append(ops, op{Kind: "get", Key: "n0000"}, op{Kind: "get", Key: "k0000"}, op{Kind: "stats"})
+				c.Eval()
+				c.Family("long-chains")
+				if res := runHistory(cf, ops); !res.ok {
+					report(c, cf, ops, res)
+				} else {
+					c.NontrivialInjective()
+				}
+			}
+
+			for _, touch := range touches {
 				for _, lim := range []int{size - 1, size, size + 1, 8, 9} {
 					for _, bySize := range []bool{false, true} {
 						n++
